@@ -5,7 +5,7 @@ from ..monitors.cells import Cells
 
 make(globals(), "C11", [functools.partial(Cells, props=("C11",))],
      families=["atoms_cellb", "atoms_cellv", "dip_cellb", "dip_cellv", "water_vv", "water_vi", "water_pb",
-               "hdd_cells", "cuboid_cells"],
+               "hdd_cells", "cuboid_cells", "dense_cells"],
      rule=("seeded whole runs of configurations with a cell system; full recount of the occupancy after every "
            "activator update, active cell against the trajectory at every commit; non-trivial = a cell-boundary "
            "event and >= 50 recounts"),
